@@ -98,6 +98,10 @@ def gen(rng, tier):
             if L >= 2:      # L = 1 makes BuildWeightsGamma call os.Exit (alpha = +Inf, beta = 0): one case below
                 yield Case("c20wgamma", [seed(), L], L >= 3, "weights-gamma")
             yield Case("c20wdir", [seed(), L], L >= 3, "weights-dirichlet")
+    for _ in range(20 if tier == "quick" else 200):
+        L1, L2 = rng.randint(3, 80), rng.randint(3, 80)
+        yield Case("c20wdir2", [seed(), L1, L2], True, "weights-dirichlet-two-alignments")
+        yield Case("c20wgamma2", [seed(), L1, L2], True, "weights-gamma-two-alignments")
     yield Case("c20wgamma", [seed(), 1], False, "weights-gamma-L1-exit")
     for L in ([500, 2000] if quick else [500, 1000, 2000, 5000]):
         yield Case("c20wgamma", [seed(), L], True, "weights-gamma")
@@ -187,7 +191,7 @@ def matches(c):
     x, y = (c.model or "").split(" "), (c.impl or "").split(" ")
     if len(x) != len(y):
         return False
-    sampler = c.op in ("c20wgamma", "c20wdir", "c20dir", "c20dir1", "c20gamma", "c20consts")
+    sampler = c.op in ("c20wgamma", "c20wdir", "c20wdir2", "c20wgamma2", "c20dir", "c20dir1", "c20gamma", "c20consts")
     tol = 1e-12 if sampler else 1e-9
     worst = 0.0
     for s, t in zip(x, y):
@@ -266,6 +270,15 @@ def classify(c):
 
 def shrink(c):
     a = list(c.args)
+    if c.op in ("c20wdir2", "c20wgamma2"):
+        for i in (1, 2):
+            L = int(a[i])
+            for l2 in (3, L // 2, L - 1):
+                if 3 <= l2 < L:
+                    b = list(a)
+                    b[i] = l2
+                    yield Case(c.op, b)
+        return
     if c.op in ("c20wgamma", "c20wdir"):
         L = int(a[1])
         for l2 in (3, L // 2, L - 1):
